@@ -290,12 +290,71 @@ def explore(item):
                 for s, w in probs:
                     out.append((s + f":{outer.lower()}+{inner.lower()}", w, {"lines": lines, "schedule": [[t, list(q)] for t, q in sched]}))
                 r.cleanup()
+    if with_intervals and len(lines) <= 5 and not any("Watch" in ln or "Base: L" in ln for ln in lines):
+        # second run: the first run is stopped (while running / paused / on hold, before or inside a block), then started again; the
+        # second run must start every thresholded / waited-for instruction at the same offset from its start as a fresh run does
+        fresh = mark_offsets(base_offsets_of(lines))
+        # reference: the plainest second run (stopped while running before tick 2).  The very first run of an engine reaches its
+        # first instruction one tick later than later runs do, so offsets are compared between second runs; the fresh run
+        # supplies the marks that have to appear
+        ref_run = drive(lines, ((2, ("user", "Stop")), (5, ("user", "Start"))))
+        want = mark_offsets(ref_run, after=5)
+        ref_run.cleanup()
+        stats["exec"] += 1
+        if fresh is not None and want is not None and [m for m, _ in fresh["marks"]] != [m for m, _ in want["marks"]]:
+            out.append(("C03:second-run-differs:marks:after-stop-while-running",
+                        f"run stopped at tick 2 and started again: marks {want['marks']}, a fresh run has {fresh['marks']}",
+                        {"lines": lines, "schedule": [[2, ["user", "Stop"]], [5, ["user", "Start"]]]}))
+        for first in (None, "Pause", "Hold"):
+            for s_at in range(2, min(last + 2, 16)):
+                sched = (((1, ("user", first)),) if first else ()) + ((s_at, ("user", "Stop")), (s_at + 3, ("user", "Start")))
+                r = drive(lines, sched)
+                stats["exec"] += 1
+                got = mark_offsets(r, after=s_at + 3)
+                if got is not None and want is not None and HORIZON - (s_at + 4) > want["span"] + 2:
+                    stats["second_runs_compared"] += 1
+                    # whether a 'Wait: 0.3s' takes three or four ticks depends on the binary rounding of the tick times, which differ
+                    # from run to run: offsets may differ by one tick per Wait line (and one for the tick in which Start lands)
+                    tol = 1 + sum(1 for ln in lines if "Wait" in ln)
+                    same = ([m for m, _ in got["marks"]] == [m for m, _ in want["marks"]]
+                            and all(abs(a[1] - b[1]) <= tol for a, b in zip(got["marks"], want["marks"])))
+                    if not same:
+                        how = "never" if len(got["marks"]) < len(want["marks"]) else "other-offsets"
+                        out.append((f"C03:second-run-differs:{how}:after-stop-{'while-' + first.lower() if first else 'while-running'}",
+                                    f"run stopped at tick {s_at}" + (f" ({first} before tick 1)" if first else "") + f" and started again: marks at "
+                                    f"offsets {got['marks']} from the start of the second run, the second run after a plain Stop at tick 2 has {want['marks']}",
+                                    {"lines": lines, "schedule": [[t, list(q)] for t, q in sched]}))
+                r.cleanup()
     seen, uniq = set(), []
     for s, w, c in out:
         if s not in seen:
             seen.add(s)
             uniq.append((s, w, c))
     return uniq, dict(stats)
+
+
+def base_offsets_of(lines):
+    return drive(lines, ())
+
+
+def mark_offsets(run: Run, after: int = 0):
+    """[(mark, ticks since the run (the one started at/after tick `after`) became Running)] or None if it never did"""
+    start = next((ob["n"] for ob in run.obs if ob["n"] >= after and ob["state"] == "Running" and ob["flags"]["started"]), None)
+    if start is None:
+        if after == 0:
+            run.cleanup()
+        return None
+    names = run.marks()
+    marks = []
+    n0 = run.obs[start - 1]["nmarks"] if start > 0 else 0
+    prev = n0
+    for ob in run.obs[start:]:
+        for k in range(prev, ob["nmarks"]):
+            marks.append((names[k], ob["n"] - start))
+        prev = ob["nmarks"]
+    if after == 0:
+        run.cleanup()
+    return {"marks": marks, "span": max([o for _, o in marks] + [0])}
 
 
 def run(ctx):
@@ -313,9 +372,10 @@ def run(ctx):
     ctx.coverage.update(
         states=tot["exec"] * HORIZON, transitions=tot["exec"] * HORIZON, traces_validated_against_impl=tot["exec"],
         evaluations=tot["exec"], distinct_nontrivial=tot["with_interval"], programs=len(items),
-        threshold_or_wait_instances_judged=tot["judged"],
-        rule="one execution per program and per (program, Pause|Hold, start tick, length 1|4); non-trivial = executions with a "
-             "pause/hold interval",
+        threshold_or_wait_instances_judged=tot["judged"], second_runs_compared_with_a_fresh_run=tot["second_runs_compared"],
+        rule="one execution per program and per (program, Pause|Hold, start tick, length 1|4); for programs without Watch / Base L also "
+             "per (none|Pause|Hold before tick 1, Stop at tick 2..15, Start three ticks later): the second run's marks are compared, by "
+             "offset from the start of the run, with a fresh run; non-trivial = executions with a pause/hold interval",
         samples=[items[0][0], items[len(items) // 2][0], items[-1][0]], exhaustive=True, horizon=HORIZON)
 
 
